@@ -949,6 +949,7 @@ func c14run(c *Ctx) {
 	}
 	// ---- F9: trees with a history (indexes built, then edited) ----
 	c14histFamily(c)
+	c14stemFamily(c)
 	// ---- F7: command line (gotree matrix / gotree brlen cut) on the default decoration ----
 	c14cliFamily(c)
 	// ---- F8: large structured instances (plain executions, not exhaustive) ----
@@ -1159,7 +1160,7 @@ func init() {
 			"the reference model's tip sets below branches (refmodel.Below) are correct",
 		},
 		Require: []string{
-			"history_cases",
+			"history_cases", "single_neighbour_root_cases",
 			"clause_path_sum_brlen", "clause_path_sum_none", "clause_path_sum_boot", "clause_symmetry_diagonal",
 			"clause_row_order_tips_not_in_name_order", "clause_avg_mean_of_several_trees", "avg_collections_with_differing_tip_order",
 			"clause_cut_threshold_equals_a_length", "clause_cut_other_thresholds", "cut_partitions_with_a_proper_group",
